@@ -34,6 +34,7 @@ def c01_forms(ports, with_strings):
     forms["a0"] = {0: [[1, [a]]], 1: [[1, [b]]]}
     forms["a1"] = {0: [[1, [a, b]]], 1: [[1, [c]]]}
     forms["a2"] = {0: [[2, [a]], [1, [b]]], 1: [[1, [b, c]], [2, [c]]]}
+    forms["a3"] = {0: [[1, [a]]], 1: [[1, [b]]], 2: [[1, [c]]]}
     forms["z0"] = [[1, [a]]]  # throughput 0.0 -> shown, not summed
     forms["n0"] = []  # no micro-ops at all
     if with_strings:
